@@ -59,6 +59,7 @@ pub struct Violation {
 
 const MAX_VIOLATIONS_PER_CHUNK: usize = 40;
 const MAX_SAMPLES_PER_CHUNK: usize = 4;
+const MAX_CRASHES_PER_FAMILY: u64 = 48;
 
 /// What a worker accumulates between two checkpoints.
 #[derive(Default, Debug)]
@@ -224,7 +225,7 @@ impl<'a> Family<'a> {
             name: name.to_string(),
             items,
             bounds: bounds.to_string(),
-            item_timeout_s: 60.0,
+            item_timeout_s: 30.0,
             budget_s: None,
             stack_mb: 8,
             workers: None,
@@ -708,6 +709,22 @@ impl Run {
                 }
                 Err(mpsc::RecvTimeoutError::Timeout) => {}
                 Err(mpsc::RecvTimeoutError::Disconnected) => break,
+            }
+            // a family in which the engine keeps dying or hanging has made its point: stop it
+            // instead of paying a time-out per item (reported as capped, never as complete)
+            if crashes >= MAX_CRASHES_PER_FAMILY && cap_hit.is_none() {
+                for w in ws.iter_mut() {
+                    if let Some(mut c) = w.child.take() {
+                        let _ = c.kill();
+                        let _ = c.wait();
+                    }
+                    w.generation += 1;
+                    w.done = true;
+                }
+                cap_hit = Some(format!(
+                    "abandoned after {crashes} engine crashes / hangs in this family (each one is reported); items below the per-shard checkpoints are covered"
+                ));
+                break;
             }
             // hang detection and budget
             for idx in 0..ws.len() {
